@@ -210,9 +210,21 @@ def immediate (s : Txt) : Res ImmTok :=
   (mapR ImmTok.num (hexNum r) <^> mapR ImmTok.num (decNum r) <^> floatP r <^> doubleP r)
     </> mapR ImmTok.ident (identifier r)
 
-def shiftOp (s : Txt) : Res Txt := clitOr true A64.shiftOps s
+/-- `WordEnd(alphanums + "_.")` (no white-space skipping): end of text or a non-word character next -/
+def isWordEndC (c : Nat) : Bool := isAlnumC c || A64.wordEndExtra.contains c
+def wordEnd {α : Type} (a : Res α) : Res α :=
+  match a with
+  | some (x, c :: r) => if isWordEndC c then none else some (x, c :: r)
+  | some (x, []) => some (x, [])
+  | none => none
 
-/-- `immediate + Suppress(",") + shift_op + Optional(immediate)` -/
+/-- `shift_op + word_end` (in `register` and in `arith_immediate`): one of the operators, as a complete
+    word — `lsl_loop` behind a register is not the shift `lsl`.  `A64.shiftWordEnd` says whether the
+    grammar has the word end there (it has since the repair `a64-shiftop-prefix-label`). -/
+def shiftOp (s : Txt) : Res Txt :=
+  if A64.shiftWordEnd then wordEnd (clitOr true A64.shiftOps s) else clitOr true A64.shiftOps s
+
+/-- `immediate + Suppress(",") + shift_op + word_end + Optional(immediate)` -/
 def arithP (s : Txt) : Res (ImmTok × Txt × Option ImmTok) :=
   match immediate s with
   | some (b, r) =>
@@ -367,7 +379,7 @@ def registerList (s : Txt) : Res RegTok :=
     | none => none
   | none => none
 
-/-- `Suppress(",") + shift_op + Optional(immediate)` -/
+/-- `Suppress(",") + shift_op + word_end + Optional(immediate)` -/
 def shiftTail (s : Txt) : Res (Txt × Option ImmTok) :=
   match lit true [44] s with
   | some r =>
@@ -476,14 +488,6 @@ inductive RawOp where
   deriving Repr
 
 def arithOp (s : Txt) : Res RawOp := mapR (fun x => RawOp.arith x.1 x.2.1 x.2.2) (arithP s)
-
-/-- `WordEnd(alphanums + "_.")` (no white-space skipping): end of text or a non-word character next -/
-def isWordEndC (c : Nat) : Bool := isAlnumC c || A64.wordEndExtra.contains c
-def wordEnd {α : Type} (a : Res α) : Res α :=
-  match a with
-  | some (x, c :: r) => if isWordEndC c then none else some (x, c :: r)
-  | some (x, []) => some (x, [])
-  | none => none
 
 /-- `(prefetch_op + word_end)
      | (register ^ (prefetch_op | immediate) ^ memory ^ arith_immediate ^ identifier)` -/
